@@ -151,6 +151,37 @@ Theorem C50_nothing_after_unsubscribe_returns : forall h1 st1 s h2 st2,
 Proof. exact nothing_after_unsubscribe_returns. Qed.
 Print Assumptions C50_nothing_after_unsubscribe_returns.
 
+(* ---- send_progress (PARTIAL) ----
+   Full statement (not proved): in every fair infinite interleaving in which every
+   subscription that is a pending case of a Send eventually receives from its channel or
+   unsubscribes, the Send reaches its release step.
+   Proved: (1) every step of the sending thread between merge and release strictly
+   decreases [send_measure], so a Send makes at most that many steps of its own; (2) outside
+   reflect.Select the sending thread always has an enabled step; (3) in Select it has one as
+   soon as a pending subscriber's channel has room / an empty buffer (a blocked receiver can
+   take a hand-off) or an Unsubscribe waits on removeSub.  Missing: the fairness/liveness
+   argument over infinite schedules that turns (1)-(3) into termination. *)
+Theorem C50_send_progress_partial :
+  (forall st ss e st', inv st -> lock st = HSend ss -> s_phase ss <> PMerge ->
+     sender_label (snd e) = true -> step st e = Some st' ->
+     exists ss', lock st' = HSend ss' /\ send_measure st' ss' < send_measure st ss) /\
+  (forall st ss, inv st -> lock st = HSend ss -> s_phase ss <> PSelect ->
+     exists l st', step st (s_tid ss, l) = Some st') /\
+  (forall st ss, inv st -> lock st = HSend ss -> s_phase ss = PSelect ->
+     ((exists i s, 1 <= i /\ case_at (sendCases st) (s_k ss) i = Some (Sub s) /\
+         (length (c_queue (chans st s)) < c_cap (chans st s) \/ c_queue (chans st s) = [])) \/
+      (exists s, ustate st s = UMissed)) ->
+     exists l st', step st (s_tid ss, l) = Some st').
+Proof.
+  split; [exact send_measure_decreases | split; [exact send_nonblocking | exact send_select_enabled]].
+Qed.
+Print Assumptions C50_send_progress_partial.
+
+(* [inv] is the invariant of every reachable state *)
+Theorem C50_reachable_inv : forall h st, run step init h = Some st -> inv st.
+Proof. intros h st H. exact (run_inv h init st inv_init H). Qed.
+Print Assumptions C50_reachable_inv.
+
 (* non-vacuity: a concrete interleaving with three subscribers (capacities 1, 0, 1), two
    Sends, a subscription made while the first Send holds the lock, an Unsubscribe that
    rendezvouses with the running Send and one that takes sendLock *)
